@@ -16,7 +16,7 @@ func init() {
 		ID:       "C42",
 		Title:    "Editor support returns exact reference ranges and board positions",
 		Patterns: []string{"./d2lsp", "./d2ast"},
-		Explanation: "Decides two clauses. Crash freedom: every index and slice expression in d2lsp (completion, board-at-position and reference lookup) is in range for any text and any line/column, including negative ones — by an idiom of the bounds engine (dominating length tests, clamped parameters, range keys, searches tested against -1, case-constant lengths) or by a reviewed invariant. Board at position: the predicate by which getBoardPathAtPosition decides that a block contains the queried position touches its inputs only through comparisons of Line, Column and Byte, so its verdict depends only on the order type of (pos, Start, End); the check interprets the predicate's source (and Position.Before's) over a representative of every order type and requires Start <= pos < End in (line, column) order, with the position's byte offset neutralised by every caller.",
+		Explanation: "Decides two clauses. Crash freedom: every index and slice expression in d2lsp (completion, board-at-position and reference lookup) is in range for any text and any line/column, including negative ones — by an idiom of the bounds engine (dominating length tests, clamped parameters, range keys, searches tested against -1, case-constant lengths) or by a reviewed invariant. Board at position: the predicate by which getBoardPathAtPosition decides that a block contains the queried position touches its inputs only through comparisons of Line, Column and Byte, so its verdict depends only on the order type of (pos, Start, End); the check interprets the predicate's source (and Position.Before's) over a representative of every order type and requires Start <= pos < End in (line, column) order, with the position's byte offset neutralised by every caller. Also: memo-key completeness for d2lsp — a remembered compilation is found by a key that names every input the compilation reads (the file set included).",
 		NotCovered: "exactness of the reference ranges (a comparison with the source text) and completeness of the declarations returned; that the recursion of board-at-position returns the innermost board; nil dereferences of AST boxes (elements of parsed key paths are non-empty by the parser rule C01.unbox)",
 		Trust:      []string{"the reviewed invariants of the exceptions table"},
 		Technique:  "static analysis: bounds-idiom discharge over the typed AST with go/cfg guard dominance; order-type abstract interpretation of a comparison-only predicate",
